@@ -60,6 +60,10 @@ def pipeD (op : String) (args : List Nat) : Option String :=
       -- the model's processing function is an arbitrary total function: its stack need is not observable
       | [_, n, _] => ok [n]
       | _ => reject
+  | "pipecpu" => some <| match args with
+      -- the model has no notion of CPUs: the piped map is the sequential map on any number of them
+      | [_, n] => ok [n]
+      | _ => reject
   | "pipemany" => some <| match args with
       -- a pipe is the sequential map whatever other pipes exist: the model has no state shared between pipes
       | [_, _, n] => ok [n]
